@@ -597,27 +597,60 @@ func (c06) Run(e *simkit.Env, cc any) {
 			return fmt.Sprintf("%+v -> %+v", in, out)
 		},
 	}
-	if len(hist) > 0 {
+	// A terminating process gives up its name and its events one after the other; the property
+	// asks for each identity to be consistent, not for the release of all of them to be one atomic
+	// step: the registered names and the shared event names are checked as two histories (the
+	// terminations take part in both).
+	isEv := func(op string) bool { return op == "regevent" || op == "unregevent" }
+	for part := 0; part < 2 && len(hist) > 0; part++ {
+		keep := make([]bool, len(hist))
+		any := false
+		for i, o := range hist {
+			op := o.Input.(c06In).Op
+			keep[i] = op == "terminate" || isEv(op) == (part == 1)
+			if keep[i] && op != "terminate" {
+				any = true
+			}
+		}
+		if !any {
+			continue
+		}
 		res := porcupine.Illegal
 		for mask := 0; mask < 1<<len(transient) && res == porcupine.Illegal; mask++ {
-			variant := append([]porcupine.Operation(nil), hist...)
-			for bi, idx := range transient {
-				if mask&(1<<bi) != 0 {
-					o := variant[idx].Output.(c06Out)
-					o.OK = true
-					variant[idx].Output = o
+			var variant []porcupine.Operation
+			for i, o := range hist {
+				if !keep[i] {
+					continue
 				}
+				for bi, idx := range transient {
+					if idx == i && mask&(1<<bi) != 0 {
+						out := o.Output.(c06Out)
+						out.OK = true
+						o.Output = out
+					}
+				}
+				variant = append(variant, o)
 			}
 			res = porcupine.CheckOperationsTimeout(model, variant, 10*time.Second)
+			if part == 1 {
+				break // the transient readings concern name registrations only
+			}
 		}
 		switch res {
 		case porcupine.Illegal:
 			desc := ""
-			for _, o := range hist {
-				i, ou := o.Input.(c06In), o.Output.(c06Out)
-				desc += fmt.Sprintf(" c%d:%s(n%d,p%d)=%s[%d,%d]", o.ClientId, i.Op, i.Name, i.Proc, c06OutStr(ou), o.Call, o.Return)
+			for i, o := range hist {
+				if !keep[i] {
+					continue
+				}
+				in, ou := o.Input.(c06In), o.Output.(c06Out)
+				desc += fmt.Sprintf(" c%d:%s(n%d,p%d)=%s[%d,%d]", o.ClientId, in.Op, in.Name, in.Proc, c06OutStr(ou), o.Call, o.Return)
 			}
-			e.Fail("C06/not-linearizable", "name registry history has no sequential explanation:%s", desc)
+			what := "name registry"
+			if part == 1 {
+				what = "event name registry"
+			}
+			e.Fail("C06/not-linearizable", "%s history has no sequential explanation:%s", what, desc)
 			return
 		case porcupine.Unknown:
 			e.Probe("linearizability-check-timed-out")
